@@ -123,6 +123,18 @@ MANIFEST_TEXT["C13"] = dict(
     design_ref="DESIGN.md section 4, C13",
     note="Trusts the 30-line reference converter in harness/int2str.cpp; 64-bit space is sampled, not enumerated.",
     technique="bounded exhaustive enumeration + property-based testing (rapidcheck) against an independent reference conversion")
+# C17 through the usage printer (argument_desc.cpp is one of C17's anchors): the same generated usage cases as C18, judged
+# by the layout predicate only (--opt layout=1); added after seeded change C17d
+PROPS["C17"]["units"].append(dict(harness="argh", mode="usage", opts=dict(layout=1), quick=dict(cases=15000),
+                                  thorough=dict(cases=60000, shards=8)))
+PROPS["C17"]["require_classes"]["all"] += ["layout.judged", "layout.wrapped_description", "layout.longest_key_39",
+                                           "layout.longest_key_40", "layout.longest_key_41"]
+PROPS["C17"]["rule"] += (" Usage part: the usage cases of C18 (1..10 arguments, descriptions of 1..60 words, usage line length 60..239 or the "
+                         "default 80, printed keys of 38..51 characters with half of them at 38..42 around the same-line threshold 40); "
+                         "every indented line of the argument sections with two or more description words must fit into the line length.")
+PROPS["C17"]["assumptions"] = list(PROPS["C17"]["assumptions"]) + [
+    "usage part: only lines with >= 2 description words are judged (a single word may exceed the width, as the property says); the key of an entry line is not a description word"]
+
 MANIFEST_TEXT["C17"] = dict(
     text="Generated and (for a tiny vocabulary) exhaustively enumerated texts are formatted and the output is judged by validity "
          "predicates - same word sequence, newline separation, indentation prefix, width unless single word - not by one expected layout. " + EXPL,
